@@ -1002,7 +1002,7 @@ func callBuiltin(caller *frame, fn *ssa.Builtin, args []value) value {
 	case "delete": // delete(map[K]value, K)
 		switch m := args[0].(type) {
 		case map[value]value:
-			delete(m, caller.i.mapKey(args[1]))
+			delete(m, caller.i.mapKeyIn(m, args[1]))
 		case *hashmap:
 			m.delete(args[1].(hashable))
 		default:
@@ -1128,7 +1128,7 @@ func callBuiltin(caller *frame, fn *ssa.Builtin, args []value) value {
 func rangeIter(i *interpreter, x value) iter {
 	switch x := x.(type) {
 	case map[value]value:
-		return newSortedMapIter(x)
+		return newSortedMapIter(i, x)
 	case *hashmap:
 		return newSortedHashmapIter(x)
 	case symstr:
